@@ -98,7 +98,7 @@ fn gds_case(src: &mut Src, ctx: &mut Ctx) -> Result<(), String> {
     }
     ctx.sample(&format!("GDSII library ({})", fname), || {
         let mut s = format!("{:?}", m);
-        s.truncate(900);
+        crate::engine::clip(&mut s, 900);
         s
     });
     let back: gds21::GdsLibrary = if via_file {
@@ -183,7 +183,7 @@ fn lef_case(src: &mut Src, ctx: &mut Ctx) -> Result<(), String> {
     ctx.nontrivial(hash_of(&(format!("{:?}", lib), fname)));
     ctx.sample(&format!("LEF library ({})", fname), || {
         let mut s = format!("{:?}", lib);
-        s.truncate(900);
+        crate::engine::clip(&mut s, 900);
         s
     });
     let back: lef21::LefLibrary = if via_file {
